@@ -80,7 +80,7 @@ func runBuildLayout(c *Ctx, r *RuleRun) {
 	}
 	var writes []write
 	encOf := func(v ssa.Value) (string, *ssa.Call) {
-		ex, ok := v.(*ssa.Extract)
+		ex, ok := p.passThrough(v).(*ssa.Extract)
 		if !ok || ex.Index != 0 {
 			return "", nil
 		}
